@@ -464,6 +464,7 @@ theorem writerRun_no_panic (m : M) (w : WriteJob)
     all_goals first
       | rfl
       | (intro hg _; simpa using hbit hg)
+      | (intro hg _; simp only [Bool.and_eq_true] at hg; simpa using hbit hg.1)
       | (intro hg h; cases h)
       | (simpa using hcc)
 
